@@ -170,6 +170,10 @@ class C02(Prop):
         'fromcolumns': 'the catalogue entry materialises the columns it feeds in',
         'fromdicts': 'the catalogue entry materialises the dicts it feeds in',
         'fromdicts:generator': 'the catalogue entry materialises the dicts it feeds in',
+        'frompickle:mem': 'the catalogue entry serialises its input into a MemorySource first',
+        'fromcsv:mem': 'the catalogue entry serialises its input into a MemorySource first',
+        'fromtext:mem': 'the catalogue entry serialises its input into a MemorySource first',
+        'fromjson:mem': 'the catalogue entry serialises its input into a MemorySource first',
     }
 
     def _build_op(self, name, seed, n):
